@@ -180,12 +180,13 @@ prop('C06',
      ['"tally = sum of ballot values" and "values stay in [0,1]" as runtime invariants'])
 
 prop('C10',
-     [('R19', gr.r19_multiplier_last), ('R20', gr.r20_order_free_loops), ('R21', va.r21_scale_rounding)],
+     [('R19', gr.r19_multiplier_last), ('R20', gr.r20_order_free_loops), ('R21', va.r21_scale_rounding), ('R29', ps.r29_ballot_count_pairing)],
      'Static analysis: the ballot multiplier only ever multiplies a finished (already rounded) per-ballot quantity and the '
      'product only feeds additive accumulators; no weight or keep computation has the multiplier among its inputs; ballot '
      'loops only accumulate (no break/return, no plain store to shared state); additions are exact (R21), so neither the '
      'order of ballot lines nor the split of identical ballots into lines can change a sum. ' + NOT_BEHAVIOUR,
-     ['multiplier applied last (R19)', 'order-free ballot loops (R20)', 'exact addition (R21)'],
+     ['multiplier applied last (R19)', 'order-free ballot loops (R20)', 'exact addition (R21)',
+      'the ballot total is built line by line from the kept multipliers only (R29)'],
      ['equality of whole records under re-presentation (metamorphic)', 'tokenizer layout/comment/nickname behaviour'])
 prop('C08',
      [('R10', mk.r10_residual_pairing), ('R11', mk.r11_keep_factors), ('R12', mk.r12_iteration_exits),
